@@ -94,6 +94,47 @@ CLAIMED = {
             "any store, and that the field is encoded at and decoded from the reference bit range.",
             "Coupling between fields (ihl / data offset vs cached payload offset) is not modelled; " + TRUST,
             "DESIGN.md §3 C17"),
+    "C19": ("codec bit-provenance of the pcap headers + panic-site audit of the pcap I/O path + sibling-agreement rules",
+            "Decides the structural necessary conditions of lossless pcap I/O: global and record header codecs are mutually "
+            "inverse and match the pcap-savefile layout, a record is written whole, truncated/corrupt input cannot panic "
+            "(length prologues, read_exact results propagated, caplen bounded before allocation), the three EOF consumers "
+            "agree, and the file/stdin reader branches are clones. Record order over call histories is not decided.",
+            "Order and counts depend on the OS file position and call history; " + TRUST,
+            "DESIGN.md §3 C19"),
+    "C20": ("typestate / shape rules over the HIR of run_buf and run_filters + provenance of the output header",
+            "Decides the shape of the filter-mode driver: main program once before the loop, per-packet typestate and "
+            "counter, write iff Ok(true) through the output pcap only, -s suppresses the output pcap, PL/WL/TSS/TSU "
+            "wiring, end filter once after the loop, output global header = input header. Which packets a program "
+            "selects (values) is not decided.",
+            "Shape rules are anchored in today's structure of run_filters and fail closed on a restructuring; " + TRUST,
+            "DESIGN.md §3 C20"),
+    "C21": ("loop-exit rule for read loops + mode-table agreement with the documentation + who-constructs rule",
+            "Decides the structural necessary conditions of chunk-independent reads: no read loop exits on a short read, "
+            "unbounded reads go to end of input and copy exactly what was read, the open() mode table equals the "
+            "documented one (extracted from docs/language/builtins.md), and each handle has one buffered reader/writer. "
+            "Chunk schedules themselves are not decided.",
+            "std's BufReader/BufWriter semantics are trusted; flush-at-exit depends on drop order (not decided); " + TRUST,
+            "DESIGN.md §3 C21"),
+    "C22": ("error-discipline rule: every io::Result in the named builtins must be consumed by an accepted idiom",
+            "Decides at every one of the io::Result-producing sites reachable from the 11 named builtins that the error "
+            "becomes an error object (not expect/unwrap, not dropped, not a runtime error string), that pcap.rs propagates "
+            "with `?`, that error objects pass through builtin-to-builtin calls, and that none of them prints with "
+            "panicking macros.",
+            "The accepted idioms are a frozen list confirmed by reading; " + TRUST,
+            "DESIGN.md §3 C22"),
+    "C23": ("path rule on the REPL loop: state carried over a rejection path must be the state that entered the iteration",
+            "Decides the 'rejected lines have no effect' clause structurally: parse rejection continues before any state "
+            "moves; on compile rejection symtab/constants are restored from copies taken before the compiler got them "
+            "and nothing is taken from the failed compiler; runtime errors keep the accepted line. History equivalence "
+            "with a script is not decided.",
+            "Keys on today's design (a transactional compile() would be reported); " + TRUST,
+            "DESIGN.md §3 C23"),
+    "C24": ("non-interference of the mode flag + argv provenance rules on main.rs / cliargs",
+            "Decides that script and command mode share one run path, that the mode flag influences only the guarded "
+            "print of the last value, that argv is [script] ++ args in order through to the Argv variable, and that a "
+            "'#' line is a comment at any position. Program outputs are not decided.",
+            "clap's argument parsing is trusted; " + TRUST,
+            "DESIGN.md §3 C24"),
 }
 
 NOT_APPLICABLE = {
